@@ -439,7 +439,7 @@ theorem widths_entry (e : WEntry) (m : WMap) :
     rw [putList_eq]
   | range c1 c2 w =>
     simp only [renderWEntry, List.foldl_cons, List.foldl_nil, widthsStep, List.nil_append, List.cons_append,
-      and_self, if_true, Rat.floor_intCast, wentryPairs]
+      and_self, if_true, Rat.floor_intCast, wentryPairs, Gen.CIDFont.MAX_CID]
     rw [putRange_eq]
     simp only [Nat.zero_add]
 
@@ -497,7 +497,7 @@ theorem putList2_eq (c : Nat) : ∀ (ws : List Num3) (i : Nat) (m : W2Map),
       = toW2Map (list2Pairs c i ws).reverse ++ m
   | [], i, m => by simp [putList2, list2Pairs, toW2Map]
   | w :: ws, i, m => by
-    simp only [List.map_cons, putList2, list2Pairs, List.reverse_cons, toW2Map_append]
+    simp only [List.map_cons, putList2, list2Pairs, List.reverse_cons, toW2Map_append, isNum3, if_true]
     rw [putList2_eq c ws (i + 1)]
     simp only [toW2Map, List.map_cons, List.map_nil, List.append_assoc, List.cons_append, List.nil_append,
       Rat.intCast_natCast, Rat.natCast_add]
@@ -525,7 +525,7 @@ theorem widths2_entry (e : W2Entry) (rest : List WElem) (m : W2Map) :
     rw [putList2_eq]
   | range c1 c2 w =>
     simp only [renderW2Entry, List.cons_append, List.nil_append, getWidths2Aux, widths2Step, and_self, if_true,
-      Rat.floor_intCast, w2entryPairs]
+      Rat.floor_intCast, w2entryPairs, Gen.CIDFont.MAX_CID]
     rw [putRange_gen]
     simp [toW2Map, Function.comp_def]
 
